@@ -9,7 +9,7 @@ fn unhex(s: &str) -> Vec<u8> {
     (0..s.len() / 2).filter_map(|i| u8::from_str_radix(&s[2 * i..2 * i + 2], 16).ok()).collect()
 }
 
-pub const SHAPES: [&str; 10] = ["seq", "key", "flowseq", "flowmap", "alt-block", "alt-flow", "block-flow", "key-per-level", "block-leaf", "mix"];
+pub const SHAPES: [&str; 12] = ["seq", "key", "flowseq", "flowmap", "alt-block", "alt-flow", "block-flow", "key-per-level", "block-leaf", "flowseq-closed", "flowmap-closed", "mix"];
 pub const APIS: [&str; 8] = ["iter", "load", "load_str_forget", "load_str_drop", "load_marked_drop", "built_drop", "emit", "emit_ml"];
 
 /// Build the nested input. `mix` uses the opener word given (indices into OPENERS).
@@ -27,6 +27,17 @@ pub fn nest_text(shape: &str, depth: usize, word: &[u8]) -> String {
             s.push('x');
         }
         "flowseq" => s = "[".repeat(depth),
+        // the same nests with every collection closed again (beyond the flow limit the opener is refused)
+        "flowseq-closed" => {
+            s = "[".repeat(depth);
+            s.push_str("x, y");
+            s.push_str(&"]".repeat(depth));
+        }
+        "flowmap-closed" => {
+            s = "{a: ".repeat(depth);
+            s.push('x');
+            s.push_str(&"}".repeat(depth));
+        }
         "flowmap" => s = "{a: ".repeat(depth),
         "alt-block" => {
             for i in 0..depth {
@@ -93,7 +104,7 @@ fn built_tree(shape: &str, depth: usize) -> Yaml<'static> {
     let mut y = Yaml::Value(Scalar::String("x".into()));
     for i in 0..depth {
         let map = match shape {
-            "flowmap" | "key" | "key-per-level" => true,
+            "flowmap" | "flowmap-closed" | "key" | "key-per-level" => true,
             "alt-block" | "alt-flow" | "mix" => i % 2 == 1,
             _ => false,
         };
